@@ -214,6 +214,20 @@ func rfInputs(parser string, r *rand.Rand, thorough bool) []*rfInput {
 			in, ops := genDecCase(r, false)
 			ins = append(ins, &rfInput{name: fmt.Sprintf("gen%d", i), b: in, ops: ops})
 		}
+		// strings cut short at every interesting place (whatever lies behind the data in memory is not part of the input)
+		for _, mt := range []int{2, 3} {
+			op := map[int]string{2: "bytes", 3: "text"}[mt]
+			for _, l := range []int{1, 5, 24, 300} {
+				full := append(ownHead(mt, uint64(l), 0), bytes.Repeat([]byte{'s'}, l)...)
+				hl := len(full) - l
+				for _, cut := range []int{len(full), len(full) - 1, hl + l/2, hl, hl - 1} {
+					if cut < 0 || (cut == hl-1 && hl < 2) {
+						continue
+					}
+					ins = append(ins, &rfInput{name: fmt.Sprintf("str%d/%d/cut%d", mt, l, cut), b: append([]byte{}, full[:cut]...), ops: []string{op, "byte"}})
+				}
+			}
+		}
 	case "mice":
 		for _, draft := range []string{"02", "03"} {
 			for _, c := range [][2]int{{0, 16}, {1, 1}, {5, 1}, {16, 16}, {17, 16}, {40, 7}, {48, 16}} {
